@@ -237,12 +237,12 @@ func (v *vbint) UnmarshalBinary(data []byte) error {
 			return unmarshalErr(v, "", "size exceeded")
 		}
 		if encodedByte&128 == 0 {
-			break
+			*v = vbint(value)
+			return nil
 		}
 		multiplier = multiplier * 128
 	}
-	*v = vbint(value)
-	return nil
+	return unmarshalErr(v, "", "missing data")
 }
 
 // wire types
